@@ -239,6 +239,10 @@ def copier_env(repo, rec):
     np_ = L.NPModel({"nanmin": NPStat("nanmin"), "nanmax": NPStat("nanmax"),
                      "nanmean": NPStat("nanmean"),
                      "min": NPStat("min"), "max": NPStat("max"),
+                     "mean": NPStat("mean"), "median": NPStat("median"),
+                     "std": NPStat("std"), "nanstd": NPStat("nanstd"),
+                     "nanmedian": NPStat("nanmedian"),
+                     "amin": NPStat("amin"), "amax": NPStat("amax"),
                      "ma": L.namespace("np.ma", masked_invalid=MaskedStats,
                                        masked_array=MaskedStats)})
 
@@ -643,6 +647,22 @@ def eval_rtdc_copy(ctx, repo, agg):
                         agg.add("R8.4", "scalar statistics complemented",
                                 node, ok, f"feature {nm}: min/max/mean "
                                 f"attributes not complemented")
+                        # scalar features contain nan (invalid events): a
+                        # complemented summary must ignore them, like its
+                        # siblings and the summaries the writer stores
+                        added = {a: str(dd.attrs[a]) for a in (
+                            "min", "max", "mean") if a in dd.attrs
+                            and a not in mm.attrs}
+                        naive = {a: v for a, v in added.items() if not (
+                            v.startswith("nan") or "masked" in v)}
+                        agg.add("R8.4", "complemented statistics ignore nan",
+                                node, not naive,
+                                f"feature {nm}: attribute(s) "
+                                f"{sorted(naive)} are complemented with "
+                                f"{sorted(naive.values())}: one invalid "
+                                f"(nan) event makes the stored summary nan "
+                                f"(the other summaries use the nan-aware "
+                                f"functions)")
             # basin definitions delegated
             calls = [c for c in rec.calls if c[0] == "basin_definition_copy"]
             want_call = ib and "basins" in src
@@ -790,6 +810,13 @@ def r83_tasks(ctx, repo):
                     if isinstance(it.optional_vars, ast.Name) \
                             and it.optional_vars.id == name:
                         return it.context_expr
+            # name = stack.enter_context(<context manager>)
+            if isinstance(w, ast.Assign) and any(
+                    isinstance(t, ast.Name) and t.id == name
+                    for t in w.targets) and isinstance(
+                    w.value, ast.Call) and last_attr(w.value) \
+                    == "enter_context" and len(w.value.args) == 1:
+                return w.value.args[0]
         return None
     for rel, q in ((COMPRESS, "compress"), (REPACK, "repack"),
                    (CONDENSE, "condense_dataset")):
@@ -1654,25 +1681,59 @@ def r88(ctx, repo):
         raise AnalysisError("tdms2rtdc: export.hdf5 call lost")
     ex = ex[0]
     fv = kwarg(ex, "features", 1)
-    defs = [s.value for s in walk(fn) if isinstance(s, ast.Assign) and any(
-        isinstance(t, ast.Name) and fv is not None and t.id == txt(fv)
-        for t in s.targets)]
-    srcs = sorted(txt(d) for d in defs)
+    # which list is exported under which value of `compute_features`:
+    # if-statement or conditional expression, either polarity
+    choice = {}       # truth value of compute_features -> source text
+
+    def polarity(test):
+        if txt(test) == "compute_features":
+            return True
+        if isinstance(test, ast.UnaryOp) and isinstance(test.op, ast.Not) \
+                and txt(test.operand) == "compute_features":
+            return False
+        return None
+    fname = txt(fv) if fv is not None else None
+    for n in walk(fn):
+        if isinstance(n, ast.Assign) and any(
+                isinstance(t, ast.Name) and t.id == fname
+                for t in n.targets):
+            v = n.value
+            if isinstance(v, ast.IfExp):
+                pol = polarity(v.test)
+                if pol is None:
+                    raise AnalysisError("tdms2rtdc: feature selection "
+                                        f"`{short(v, 60)}` not recognised")
+                choice.setdefault(pol, set()).add(txt(v.body))
+                choice.setdefault(not pol, set()).add(txt(v.orelse))
+                continue
+            # inside an if / else on compute_features?
+            par, child = n.parent, n
+            pol = None
+            while par is not None and not isinstance(par, ast.FunctionDef):
+                if isinstance(par, ast.If) and polarity(par.test) is not None:
+                    pol = polarity(par.test)
+                    if any(child is x for x in par.orelse):
+                        pol = not pol
+                    break
+                child, par = par, getattr(par, "parent", None)
+            if pol is None:
+                choice.setdefault(True, set()).add(txt(v))
+                choice.setdefault(False, set()).add(txt(v))
+            else:
+                choice.setdefault(pol, set()).add(txt(v))
+    srcs = sorted(set().union(*choice.values())) if choice else []
     ok = srcs == ["ds.features", "ds.features_innate"]
     ctx.ob("R8.8", ok, "exported features are ds.features (computed) or "
            "ds.features_innate" if ok else
            f"exported feature list derives from {srcs}", node=ex,
            label="exported feature list")
     # compute_features selects the full list
-    sel = [n for n in walk(fn) if isinstance(n, ast.If) and txt(n.test)
-           == "compute_features"]
-    ok = bool(sel) and any(txt(getattr(s, "value", None)) == "ds.features"
-                           for s in sel[0].body) and any(
-        txt(getattr(s, "value", None)) == "ds.features_innate"
-        for s in sel[0].orelse)
+    ok = choice.get(True) == {"ds.features"} and choice.get(False) == {
+        "ds.features_innate"}
     ctx.ob("R8.8", ok, "without compute_features only innate features are "
            "exported" if ok else "feature selection by compute_features "
-           "changed", node=sel[0] if sel else fn,
+           f"changed: with the option {sorted(choice.get(True, []))}, "
+           f"without {sorted(choice.get(False, []))}", node=ex,
            label="feature selection polarity")
     filt = kwarg(ex, "filtered", 2)
     ok = filt is not None and txt(filt) == "True"
